@@ -866,6 +866,11 @@ def apply(ex, ctx, st, f, args, dest_ty, term):
                 ex.store(st, itref, mk('agg', k, (seq, C(pos[1] + 1, 'usize'))))
                 return option_some(seq[2][pos[1]]), st
             return OPTION_NONE, st
+        if k[0] == 'model' and k[1] == 'Bytes':
+            s_, pos = it[2]
+            ex.store(st, itref, mk('agg', k, (s_, C(pos[1] + 1, 'usize'))))
+            has = mk_call('has_byte', (s_, pos), 'bool')
+            return mk_ite(has, option_some(mk_call('byte_at', (s_, pos), 'u8')), OPTION_NONE), st
         if k[0] == 'model' and k[1] == 'Chars':
             s_, pos = it[2]
             ex.store(st, itref, mk('agg', k, (s_, C(pos[1] + 1, 'usize'))))
@@ -1054,8 +1059,14 @@ def apply(ex, ctx, st, f, args, dest_ty, term):
         return mk_call('str_len', (args[0],), 'usize'), st
     if path == 'core::str::<impl str>::is_empty':
         return mk_bin('Eq', mk_call('str_len', (args[0],), 'usize'), C(0, 'usize'), 'usize', 'bool'), st
-    if path == 'core::str::<impl str>::as_bytes' or path == 'core::str::<impl str>::bytes':
-        raise Uncertified("byte-level access to text (no contract model: positions are bytes, not characters)")
+    if path == 'core::str::<impl str>::bytes':
+        return m_iter('Bytes', args[0], C(0, 'usize')), st
+    if path == 'core::str::<impl str>::as_bytes':
+        raise Uncertified("byte-level access to text through a slice (no contract model)")
+    if path.startswith('core::char::convert::<impl core::convert::From<u8> for char>') or (dpath == 'core::convert::From::from' and 'for char' in path and 'u8' in path):
+        return mk_cast(args[0], 'char'), st
+    if path in ('core::str::<impl str>::starts_with', 'core::str::<impl str>::trim', 'core::str::<impl str>::char_indices'):
+        raise Uncertified("text operation %s has no contract model" % name)
 
     raise Uncertified("no contract model for foreign callee %s" % path)
 
